@@ -64,6 +64,12 @@ type Canonicalizer struct {
 	Policy     LiteralPolicy
 	StrictMode bool
 
+	// FuncLitFingerprint, when set, returns the fingerprint of a function literal nested in
+	// the function being canonicalized. A literal is referenced by its position, which says
+	// nothing about its body; including its fingerprint keeps two functions that differ only
+	// inside a literal from sharing a canonical form.
+	FuncLitFingerprint func(*ssa.Function) string
+
 	loopInfo *loop.LoopInfo
 
 	registerMap          map[ssa.Value]string
@@ -513,6 +519,7 @@ func (c *Canonicalizer) fullReset() {
 }
 
 func (c *Canonicalizer) resetConfig() {
+	c.FuncLitFingerprint = nil
 	if c.virtualBlocks != nil {
 		for k := range c.virtualBlocks {
 			delete(c.virtualBlocks, k)
@@ -1228,7 +1235,11 @@ func (c *Canonicalizer) NormalizeOperand(v ssa.Value, context ssa.Instruction) s
 		if name, exists := c.registerMap[v]; exists {
 			return name
 		}
-		return fmt.Sprintf("<func_ref:%s:%s>", funcRefName(operand, context), sanitizeType(operand.Signature))
+		name := funcRefName(operand, context)
+		if c.FuncLitFingerprint != nil && strings.HasPrefix(name, "<lit") {
+			name += ":" + c.FuncLitFingerprint(operand)
+		}
+		return fmt.Sprintf("<func_ref:%s:%s>", name, sanitizeType(operand.Signature))
 	default:
 		return c.normalizeValue(v)
 	}
